@@ -11,7 +11,11 @@ for p in sorted(glob.glob('/verif/seeded/*/meta.json')):
 head = open('/verif/tools/design_11_4_head.md').read()
 tail = open('/verif/tools/design_11_4_tail.md').read()
 s=open('/verif/DESIGN.md').read()
+rest=''
+if '\n### 11.5' in s:
+    rest=s[s.index('\n### 11.5'):]
+    s=s[:s.index('\n### 11.5')]
 if '### 11.4' in s:
     s=s[:s.index('\n### 11.4')]
-open('/verif/DESIGN.md','w').write(s.rstrip('\n')+'\n'+head+"\n".join(rows)+"\n"+tail)
+open('/verif/DESIGN.md','w').write(s.rstrip('\n')+'\n'+head+"\n".join(rows)+"\n"+tail.rstrip('\n')+'\n'+rest)
 print(sum('MISSED' in r for r in rows), "missed of", len(rows))
